@@ -31,6 +31,13 @@ class Boom(Exception):
     pass
 
 
+class StrRepr(str):
+    """A str subclass that is self-rendering: displayed, it is kept as HTML like every _repr_html_ object."""
+
+    def _repr_html_(self):
+        return "<em>sr</em>"
+
+
 class ReprRaises:
     def _repr_html_(self):
         raise ValueError("repr failed")
@@ -92,12 +99,16 @@ class Recorder:
         # a hook is free to return something (e.g. the value it displayed); that must not influence the block
         return value if self.returns_value else None
 
+    def __len__(self):
+        # a collector object used as a hook: "empty" (falsy) until something was delivered - it is still the hook
+        return len(self.delivered)
+
     def __wrapped__(self, value):  # what functools.wraps leaves on a decorated hook: NOT where displayed values go
         self.delivered.append(("delivered-to-__wrapped__", value))
 
 
 # ------------------------------------------------------------------ program generation
-VALUE_KINDS = ["inst_repr", "inst_tagify", "inst_none", "none", "ellipsis", "text", "num", "tag", "taglist", "html", "dep", "meta", "tf", "obj", "tfobj", "list", "badlist", "bad", "reprraise", "emptystr"]
+VALUE_KINDS = ["strrepr", "inst_repr", "inst_tagify", "inst_none", "none", "ellipsis", "text", "num", "tag", "taglist", "html", "dep", "meta", "tf", "obj", "tfobj", "list", "badlist", "bad", "reprraise", "emptystr"]
 
 
 def rand_value(rng):
@@ -131,6 +142,8 @@ def rand_value(rng):
         return {"k": "list", "t": rng.choice(["list", "tuple"]), "c": [{"k": "text", "s": "v1"}, gen.TAG("i", ws=False), {"k": "bad", "t": "object"}, {"k": "text", "s": "v2"}]}
     if k == "meta":
         return {"k": "meta"}
+    if k == "strrepr":
+        return {"k": "strrepr", "s": "<em>sr</em>"}
     if k.startswith("inst_"):
         return {"k": "inst", "has": {"inst_repr": "repr", "inst_tagify": "tagify", "inst_none": None}[k]}
     return {"k": k}
@@ -219,7 +232,7 @@ class Run:
             raise Boom("injected at %d" % self.pos)
 
     def display(self, vr):
-        v = ReprRaises() if vr["k"] == "reprraise" else ... if vr["k"] == "ellipsis" else gen.build(vr)
+        v = ReprRaises() if vr["k"] == "reprraise" else ... if vr["k"] == "ellipsis" else StrRepr("plain text of the str") if vr["k"] == "strrepr" else gen.build(vr)
         # ---- model
         expect_exc = None
         add = []
@@ -230,7 +243,7 @@ class Run:
                 pass
             elif k == "reprraise":
                 expect_exc = ValueError
-            elif k in ("obj", "html"):
+            elif k in ("obj", "html", "strrepr"):
                 add = [("HTML", vr["s"])]  # kept as HTML (by value: an HTML() is itself self-rendering and is re-wrapped)
             elif k == "inst":
                 # instances of ONE class; what each is depends on the methods the instance itself carries
